@@ -21,6 +21,11 @@ NAME_FAMILIES = [
     "/var/cache/app/0123456789abcdef0123456789abcdef/zq{tag}", "/srv/data/20240101/zq{tag}", "/home/{user}/.mozilla/firefox/ab12cd34.default/zq{tag}",
     "/boot/vmlinuz-6.1.0-18-{arch}-zq{tag}", "/opt/vendor/plugins/{arch}/libzq{tag}.so.2", "/usr/lib/{arch}-linux-gnu/app/zq{tag}", "/var/lib/app/{arch}/zq{tag}",
     "/home/{user}/.cache/1000/zq{tag}", "/srv/uid1000/zq{tag}", "/run/user/{uid}/app/1000/zq{tag}",
+    "/var/tmp/app-zq{tag}/cache", "/var/tmp/zq{tag}", "/var/cache/app/zq{tag}", "/var/spool/app/zq{tag}", "/usr/local/bin/zq{tag}", "/usr/local/share/app/zq{tag}",
+    "/usr/local/lib/app/zq{tag}", "/snap/app/123/usr/bin/zq{tag}", "/mnt/data/zq{tag}", "/root/.config/app/zq{tag}", "/root/zq{tag}", "/etc/opt/app/zq{tag}",
+    "/usr/etc/app/zq{tag}", "/lib/x86_64-linux-gnu/zq{tag}", "/bin/zq{tag}", "/sbin/zq{tag}", "/lib64/zq{tag}", "/usr/lib32/app/zq{tag}", "/home/{user}/.local/state/app/zq{tag}",
+    "/home/{user}/.local/bin/zq{tag}", "/home/{user}/.local/lib/app/zq{tag}", "/sys/kernel/mm/zq{tag}", "/proc/{pid}/fd/zq{tag}", "/dev/pts/zq{tag}", "/run/systemd/zq{tag}",
+    "/var/lib/flatpak/app/zq{tag}", "/usr/share/app/x86_64/zq{tag}", "/home/{user}/snap/app/common/zq{tag}",
     "/usr/share/icons/Adwaita/16x16/zq{tag}.png", "/etc/ssl/certs/ca-certificates-zq{tag}.crt", "/home/{user}/Téléchargements/zq{tag}", "/media/{user}/USB DISK/zq{tag}",
 ]
 USERS = ["alice", "bob", "user1", "Ünï"]
@@ -92,7 +97,10 @@ def gen_record(rng, tag, cls=None, status=None, profile=None, tame=False):
         if rng.random() < 0.15:
             f.append(("info", rng.choice(["Failed name lookup - disconnected path", "Failed name lookup - deleted entry"])))
             f.append(("error", rng.choice(["-13", "-2"])))
-        f += [("profile", profile), ("name", name), ("pid", pid), ("comm", comm), ("requested_mask", mask), ("denied_mask", mask)]
+        denied = mask
+        if len(mask) > 1 and rng.random() < 0.3:
+            denied = mask[rng.randrange(len(mask))]      # partly denied: the rule must still cover everything that was requested
+        f += [("profile", profile), ("name", name), ("pid", pid), ("comm", comm), ("requested_mask", mask), ("denied_mask", denied)]
         fsuid = rng.choice(["1000", "0", "1001"])
         ouid = rng.choice([fsuid, fsuid, "0", "1000"])
         f += [("fsuid", fsuid), ("ouid", ouid)]
